@@ -36,7 +36,7 @@ class C20(Prop):
                "functools.lru_cache as modelled in PkgModel/Cache.lean (tied by correspondence incl. miss counts)"]
     partial = ["hash-seed / call-order independence of the real code is observed on a battery, not proved; the proved part is "
                "cache transparency here and iteration-order invariance next to the models that iterate (C05, C06, C17)"]
-    budget = {"quick": (400, 60), "thorough": (20000, 1500)}
+    budget = {"quick": (400, 60), "thorough": (40000, 4000)}
 
     # ---- correspondence: the cache model
     def gen_cases(self, rng, n):
